@@ -13,6 +13,7 @@ the exact sequence of `is_file` / `is_dir` / `read` calls of the recording in-me
 import itertools
 import json
 import os
+from zlib import crc32 as _crc32
 import re
 import shutil
 import subprocess
@@ -404,8 +405,17 @@ def impl_job(ctx, case):
         j = compile_job(entry=P(pre, case["entry"]), load_paths=[P(pre, l) for l in case["lps"]])
         j["fs"] = "std"
         return j
-    return compile_job(files={P(pre, f): t for f, t in cont.items()}, entry=P(pre, case["entry"]),
-                       load_paths=[P(pre, l) for l in case["lps"]])
+    j = compile_job(files={P(pre, f): t for f, t in cont.items()}, entry=P(pre, case["entry"]),
+                    load_paths=[P(pre, l) for l in case["lps"]])
+    # both public spellings of the option: Options::load_paths (one call, what the CLI uses) and
+    # one Options::load_path call per entry, chosen by a stable hash of the case
+    if zlib_crc(case["entry"] + "|".join(case["lps"])) % 2:
+        j["options"]["load_paths_api"] = "singular"
+    return j
+
+
+def zlib_crc(text):
+    return _crc32(text.encode("utf-8"))
 
 
 _marker = re.compile(r'm\s*\{\s*f:\s*"([^"]*)";\s*s:\s*([^;}]*?)\s*;?\s*\}')
